@@ -53,6 +53,7 @@ const (
 	mUnlock
 	mStamp
 	mChoose
+	mTry
 	mDone
 )
 
@@ -350,6 +351,21 @@ func (s *Sched) Unlocked(key uintptr, name string) {
 	s.handoff(msg{kind: mUnlock, key: key, ekind: KUnlock, obj: name})
 }
 
+// TryLock is sync.Mutex.TryLock (or TryRLock when shared) under the scheduler:
+// a scheduling point, then the controller grants the lock if nobody holds it.
+//
+//go:norace
+func (s *Sched) TryLock(key uintptr, name string, shared bool, try func() bool) bool {
+	s.handoff(msg{kind: mYield, ekind: KCallout, obj: "trylock|" + name})
+	if s.handoff(msg{kind: mTry, key: key, obj: name, shared: shared}) == 0 {
+		return false
+	}
+	if !try() {
+		panic("sched: invariant broken: lock granted to TryLock was held: " + name)
+	}
+	return true
+}
+
 // RLock is the cooperative acquire of the read side of a reader/writer lock:
 // readers exclude writers, not each other.
 //
@@ -591,6 +607,46 @@ func (s *Sched) Run() {
 				v := s.T.Draw(int(m.key))
 				s.MapChoices++
 				s.resumeWith(m.task, uint64(v))
+			case mTry:
+				if m.obj == "" {
+					if nm, ok := s.lockName[m.key]; ok {
+						m.obj = nm
+					} else {
+						m.obj = "L" + itoa(len(s.lockName)+1)
+					}
+				}
+				s.lockName[m.key] = m.obj
+				free := s.owner[m.key] == nil && (m.shared || s.readers[m.key] == 0)
+				if !free {
+					s.log(m.task, "trylock-failed", m.obj, "")
+					s.resumeWith(m.task, 0)
+					continue
+				}
+				t := m.task
+				if m.shared {
+					s.readers[m.key]++
+				} else {
+					s.owner[m.key] = t
+				}
+				t.held = append(t.held, m.key)
+				s.log(t, "acquire", m.obj, "trylock")
+				if lc := s.lockVC[m.key]; lc != nil {
+					for i, v := range lc {
+						if v > s.vc[t.ID][i] {
+							s.vc[t.ID][i] = v
+						}
+					}
+				}
+				if !m.shared {
+					if lc := s.readerVC[m.key]; lc != nil {
+						for i, v := range lc {
+							if v > s.vc[t.ID][i] {
+								s.vc[t.ID][i] = v
+							}
+						}
+					}
+				}
+				s.resumeWith(t, 1)
 			case mStamp:
 				// logged, the task continues immediately
 				s.log(m.task, m.ekind, m.obj, m.site)
